@@ -803,7 +803,7 @@ Proof.
   rewrite <- (sat_new_self ts ctx rho Hts Hc Hs). fold ns.
   rewrite poly_simplify_unfold in H. fold vs ns in H. cbn [opt_list ctx] in H.
   destruct vs as [|v0 vs'] eqn:Evs.
-  - destruct c as [|c0 c']; [|discriminate]. destruct ns as [|t [|t' ns']]; try discriminate.
+  - destruct (existsb _ c); [discriminate|]. destruct ns as [|t [|t' ns']]; try discriminate.
     + inversion H. tauto.
     + inversion H. change [row_to_term [] (term_to_row [] t)] with (map (roundtrip []) [t]).
       apply sat_list_roundtrip; assumption.
@@ -2061,24 +2061,23 @@ Proof.
   - inversion H. left. reflexivity.
   - inversion H. right. split; [reflexivity|eapply nototal_miss; exact EO].
 Qed.
-Lemma simplify_err O ts c e :
-  poly_simplify O ts (Some c) = inr e ->
-  e = ValueErr \/ (e = OracleMiss /\ nototal O) \/
-  (e = Escape "AssertionError" /\ c <> [] /\ forall t, In t c -> term_vars_p t = []).
+Lemma simplify_err2 O ts c e :
+  poly_simplify O ts (Some c) = inr e -> e = ValueErr \/ (e = OracleMiss /\ nototal O).
 Proof.
   rewrite poly_simplify_unfold. destruct (simp_vars ts (Some c)) as [|v l] eqn:E.
-  - cbn [opt_list]. destruct c as [|c0 c'].
-    + destruct (new_self ts (Some [])) as [|t [|t' ns]]; intros H; inversion H. left. reflexivity.
-    + intros H. inversion H. right. right. split; [reflexivity|]. split; [discriminate|].
-      intros t Ht. destruct (term_vars_p t) as [|x xs] eqn:Ex; [reflexivity|exfalso].
-      assert (Hin : In x (simp_vars ts (Some (c0 :: c')))).
-      { unfold simp_vars. apply in_polytope_vars. exists t. split; [right; exact Ht|rewrite Ex; left; reflexivity]. }
-      rewrite E in Hin. destruct Hin.
+  - cbn [opt_list]. destruct (existsb _ c); [intros H; inversion H; left; reflexivity|].
+    destruct (new_self ts (Some c)) as [|t [|t' ns]]; intros H; inversion H. left. reflexivity.
   - intros H. apply bind_inr in H. destruct H as [H|[red [_ H]]]; [|discriminate].
     destruct (reduce_polytope_cases O (v :: l) (map (term_to_row (v :: l)) (new_self ts (Some c)))
                 (map (term_to_row (v :: l)) (opt_list (Some c)))) as [Hc|[r [_ [_ Hc]]]]; rewrite Hc in H; [|discriminate].
     apply reduce_loop_err in H. tauto.
 Qed.
+(* (the third alternative was possible before repo commit 12672f5; the statement is kept for the lemmas below) *)
+Lemma simplify_err O ts c e :
+  poly_simplify O ts (Some c) = inr e ->
+  e = ValueErr \/ (e = OracleMiss /\ nototal O) \/
+  (e = Escape "AssertionError" /\ c <> [] /\ forall t, In t c -> term_vars_p t = []).
+Proof. intros H. apply simplify_err2 in H. tauto. Qed.
 
 Lemma signq_total t v : In v (term_vars_p t) -> exists s, signq t v = inl s.
 Proof.
@@ -2363,6 +2362,54 @@ Proof.
     pose proof (all_have_vars_in _ c0 Hv (or_introl eq_refl)) as Hn. apply Hn. apply A2. left. reflexivity.
 Qed.
 
+(* since repo commit 12672f5 no assertion can fail in simplify, whatever the context contains: the side condition on the
+   context of C04_errors_total is no longer needed *)
+Lemma simplify_allowed2 O order ts ctx e : poly_simplify O ts (Some ctx) = inr e -> allowed O order e.
+Proof.
+  intros H. apply simplify_err2 in H. unfold allowed. destruct H as [->|[-> Hn]]; [tauto|].
+  right. left. split; [left; reflexivity|exact Hn].
+Qed.
+Lemma transform_err2 O order self ctx vs refine sp e :
+  transform O self ctx vs refine sp order = inr e -> allowed O order e.
+Proof.
+  unfold transform. intros H. apply bind_inr in H. destruct H as [H|[[that used] [_ H]]].
+  - eapply transform_loop_err. exact H.
+  - destruct sp; [|discriminate]. apply bind_inr in H. destruct H as [H|[r [_ H]]]; [|discriminate].
+    eapply simplify_allowed2. exact H.
+Qed.
+Lemma allowed_value O order : allowed O order ValueErr.
+Proof. left. reflexivity. Qed.
+Theorem C04_errors_refine2 O order self ctx vs sp e :
+  elim_vars_by_refining O self ctx vs sp order = inr e -> allowed O order e.
+Proof.
+  unfold elim_vars_by_refining. intros H. apply bind_inr in H. destruct H as [H|[tl [_ H]]].
+  - destruct sp; [|discriminate]. revert H. apply (as_value_error_inr _ e (allowed O order)); [|apply allowed_value].
+    intros e0 H0. eapply simplify_allowed2. exact H0.
+  - revert H. apply (as_value_error_inr _ e (allowed O order)); [|apply allowed_value]. intros e0 H0. eapply transform_err2. exact H0.
+Qed.
+Theorem C04_errors_relax2 O order self ctx vs sp e :
+  elim_vars_by_relaxing O self ctx vs sp order = inr e -> allowed O order e.
+Proof.
+  unfold elim_vars_by_relaxing. intros H. apply bind_inr in H. destruct H as [H|[tl [_ H]]].
+  - destruct sp; [|discriminate]. revert H. apply (as_value_error_inr _ e (allowed O order)); [|apply allowed_value].
+    intros e0 H0. eapply simplify_allowed2. exact H0.
+  - apply bind_inr in H. destruct H as [H|[[tl2 used] [_ H]]]; [|discriminate].
+    revert H. apply (as_value_error_inr _ e (allowed O order)); [|apply allowed_value]. intros e0 H0. eapply transform_err2. exact H0.
+Qed.
+Corollary C04_errors_total_any_context O order self ctx vs sp e :
+  lp_total O -> (forall num, In num order -> in16 num) ->
+  elim_vars_by_refining O self ctx vs sp order = inr e \/ elim_vars_by_relaxing O self ctx vs sp order = inr e ->
+  e = ValueErr \/ ((e = Escape "IndexError" \/ e = Escape "fuel") /\ In 4%nat order).
+Proof.
+  intros HT Hord H.
+  assert (A : allowed O order e) by (destruct H as [H|H]; [apply C04_errors_refine2 in H|apply C04_errors_relax2 in H]; exact H).
+  destruct A as [A|[[_ A]|[[_ [n [A1 A2]]]|A]]].
+  - left. exact A.
+  - exfalso. apply A. exact HT.
+  - exfalso. apply A2. apply Hord. exact A1.
+  - right. exact A.
+Qed.
+
 (* ------------------------------------------------------------------ *)
 (** * Why [wft'] (no stored zero coefficient) is asked of the terms being transformed *)
 (* A model-only corner: with a stored zero coefficient, [term_copy] drops the entry, the copy is no longer
@@ -2422,3 +2469,4 @@ Print Assumptions C04_refine_all.
 Print Assumptions C04_relax_all.
 Print Assumptions C04_errors.
 Print Assumptions C04_errors_total.
+Print Assumptions C04_errors_total_any_context.
